@@ -324,6 +324,15 @@ func (o *optimizer) etaReduction() {
 			if sig.TypeParams().Len() != typeArgs {
 				return false
 			}
+			// func() Seq[T] { return Normal[T]() } (Break / Continue / Return as well) is generated by rewriter,
+			// identical type if the lit is declared to return Seq[T] with the very type argument,
+			// don't depend on the type info of T, which may be declared in a package not generated yet
+			// (otherwise the output of the first and the second run of go:generate may differ)
+			if sig.Params().Len() == 0 && typeArgs == 1 {
+				if lit, ok := lit.(*ast.FuncLit); ok && lit.Type.Params.NumFields() == 0 {
+					return o.returnsSeqOf(ctx, lit, fun.(*ast.IndexExpr).Index)
+				}
+			}
 		}
 
 		litExpr, ok := lit.(ast.Expr)
@@ -345,4 +354,29 @@ func (o *optimizer) etaReduction() {
 			}
 		},
 	)
+}
+
+// whether the func lit is declared as func() Seq[$typeArg]
+func (o *optimizer) returnsSeqOf(ctx astmatcher.Ctx, lit *ast.FuncLit, typeArg ast.Expr) bool {
+	if lit.Type.Results.NumFields() != 1 {
+		return false
+	}
+	res, ok := lit.Type.Results.List[0].Type.(*ast.IndexExpr)
+	if !ok {
+		return false
+	}
+	var id *ast.Ident
+	switch x := res.X.(type) {
+	case *ast.Ident:
+		id = x
+	case *ast.SelectorExpr:
+		id = x.Sel
+	default:
+		return false
+	}
+	tn, ok := ctx.ObjectOf(id).(*types.TypeName)
+	if !ok || tn.Pkg() == nil || tn.Pkg().Path() != pkgSeqPath || tn.Name() != cstSeq {
+		return false
+	}
+	return types.ExprString(res.Index) == types.ExprString(typeArg)
 }
